@@ -404,9 +404,10 @@ func TestVerifC11(t *testing.T) {
 	pairs := [][2]int64{{0, 0}, {1, 0}, {0, 1}, {2, 0}, {0, 2}, {1, 1}}
 	if vu.Thorough() {
 		c11EnumOne(rec, 4, c012, []int64{0, 1, 2, 3, 4})
-		c11EnumTwoRes(rec, 3, pairs, []int64{0, 1, 2}, true)
+		c11EnumTwoRes(rec, 2, pairs, []int64{0, 1, 2}, true)
+		c11EnumTwoRes(rec, 3, pairs, []int64{0, 1, 2}, false)
 		c11EnumTwoTasks(rec, 2, c012, []int64{0, 1, 2, 3}, true, true)
-		c11EnumTwoTasks(rec, 2, c012, []int64{0, 1, 2}, false, true)
+		c11EnumTwoTasks(rec, 2, []int64{0, 1}, []int64{0, 1, 2}, false, true)
 		c11EnumTwoTasks(rec, 3, []int64{0, 1}, []int64{1, 2}, true, false)
 	} else {
 		c11EnumOne(rec, 3, c012, []int64{0, 1, 2, 3, 4})
